@@ -13,7 +13,7 @@ META = {
 
 def run(ctx):
     vlib.standard_proof_stage(ctx)
-    n = 300 if ctx.quick else 20000
+    n = 300 if ctx.quick else 5000
     maxops = 10 if ctx.quick else 24
     for profile in ("debug", "release"):
         binary, log = vlib.cargo_build(profile=profile, bin_name="h_chacha")
